@@ -155,7 +155,9 @@ impl FeelNumber {
   }
   ///
   pub fn odd(&self) -> bool {
-    dec_is_integer(&self.0) && !dec_is_zero(&dec_remainder(&self.0, &DEC_TWO))
+    // an odd number is an integer, however many fraction zeros it is written with, that is not even
+    // (comparing n modulo 2 with 1 is not enough: for -0.99..9 the modulo 1.00..01 is rounded to 1)
+    self.is_integer() && !self.even()
   }
   ///
   pub fn pow(&self, rhs: &FeelNumber) -> Option<Self> {
